@@ -55,16 +55,17 @@ PointFor(s, n) == [k |-> "point", v |-> Mat(<<1>> \o [i \in 1..n |-> anchor[s][i
 Emit(rec) == prog' = Append(prog, rec)
 Keep == UNCHANGED <<dim, topo, anchor>>
 CtorOps == {"new", "from_cs", "from_gs", "from_cgs"}
+Pset == Shape \in {"psetC", "psetN"}         \* the same generator drives pools of pointset powersets (C09)
 UnObs == {"constraints", "min_constraints", "generators", "min_generators", "congruences", "min_congruences",
           "space_dimension", "affine_dimension", "is_empty", "is_universe", "is_bounded", "is_discrete",
-          "is_topologically_closed", "contains_integer_point", "OK", "hash_code"}
+          "is_topologically_closed", "contains_integer_point", "OK", "hash_code"} \cup (IF Pset THEN {"size"} ELSE {})
 VarObs == {"constrains"}
 ExprObs == {"bounds_from_above", "bounds_from_below", "maximize", "minimize", "maximize_pt", "minimize_pt", "frequency"}
-BinObs == {"contains", "strictly_contains", "is_disjoint_from", "equals", "not_equals"}
+BinObs == {"contains", "strictly_contains", "is_disjoint_from", "equals", "not_equals"} \cup (IF Pset THEN {"geometrically_covers", "geometrically_equals"} ELSE {})
 ConOps == {"add_constraint", "refine_with_constraint", "relation_with_constraint"}
-ConsOps == {"add_constraints", "refine_with_constraints"}
+ConsOps == {"add_constraints", "refine_with_constraints"} \cup (IF Pset THEN {"add_disjunct"} ELSE {})
 GenOps == {"add_generator", "relation_with_generator"}
-GensOps == {"add_generators"}
+GensOps == {"add_generators"} \cup (IF Pset THEN {"add_disjunct_gs"} ELSE {})
 CgOps == {"add_congruence", "refine_with_congruence", "relation_with_congruence"}
 CgsOps == {"add_congruences", "refine_with_congruences"}
 BinMut == {"intersection", "poly_hull", "poly_difference", "time_elapse", "positive_time_elapse", "simplify_using_context", "hull_if_exact"}
@@ -73,9 +74,10 @@ LimOps == {"limited_H79", "limited_BHRZ03", "bounded_H79", "bounded_BHRZ03", "li
 WidOps == IF Shape = "poly" THEN {"H79_widening", "BHRZ03_widening", "limited_H79", "limited_BHRZ03", "bounded_H79", "bounded_BHRZ03"}
           ELSE IF Shape = "box" THEN {"CC76_widening", "widening", "CC76_narrowing", "limited_CC76"}
           ELSE IF Shape = "bds" THEN {"CC76_widening", "BHMZ05_widening", "H79_widening", "widening", "CC76_narrowing", "limited_CC76", "limited_BHMZ05", "limited_H79"}
+          ELSE IF Pset THEN {"BHZ03_widening", "BGP99_extrapolation"}
           ELSE {"CC76_widening", "BHMZ05_widening", "widening", "CC76_narrowing", "limited_CC76", "limited_BHMZ05"}
 PoolOps == {"copy_from", "assign", "swap", "conv_topo", "rebuild", "dumpload", "destroy"}
-UnMut == {"topological_closure"}
+UnMut == {"topological_closure"} \cup (IF Pset THEN {"omega_reduce", "pairwise_reduce", "collapse"} ELSE {})
 ImgOps == {"affine_image", "affine_preimage", "gen_affine_image", "gen_affine_preimage", "bounded_affine_image", "bounded_affine_preimage"}
 LhsOps == {"gen_affine_image_lhs", "gen_affine_preimage_lhs"}
 DimUp == {"add_dims_embed", "add_dims_project", "expand", "concatenate"}
@@ -86,7 +88,8 @@ AllOps == CtorOps \cup UnObs \cup VarObs \cup ExprObs \cup BinObs \cup ConOps \c
 DriverOps == {"min_constraints", "min_generators", "constraints", "generators", "add_generator", "add_constraint", "is_empty", "contains", "equals", "add_generators", "add_constraints"}
 ShapeDrivers == {"min_constraints", "constraints", "add_constraint", "refine_with_constraint", "is_empty", "contains", "equals", "refine_with_constraints", "is_universe"}
 \* minimized_constraints() is the call that moves a weakly relational element into its reduced internal state: it is drawn half of the time
-ShapeDriver(ok) == IF RE(1..2) = 1 /\ "min_constraints" \in ok THEN "min_constraints" ELSE RE(ok)
+PsetDrivers == {"add_disjunct", "add_disjunct", "add_disjunct_gs", "omega_reduce", "pairwise_reduce", "size", "is_empty", "contains", "geometrically_covers", "copy_from", "add_constraint"}
+ShapeDriver(ok) == IF Pset THEN RE(PsetDrivers) ELSE IF RE(1..2) = 1 /\ "min_constraints" \in ok THEN "min_constraints" ELSE RE(ok)
 OpOK(op) == IF op \in CtorOps THEN TRUE ELSE AliveS # {}
 (* Recipe mode (state x operation coverage, in the style of one test per transition): slot 1 and slot 2 are built with the
    same dimension and topology, then nd in 0..3 state-driver calls move slot 1's lazy representation, then ONE target
@@ -98,7 +101,8 @@ OpOK(op) == IF op \in CtorOps THEN TRUE ELSE AliveS # {}
 \*                        "chain" (C08, selected by the pseudo-operation "chain" in OpSet): an ascending chain  x_0, x_{k+1} = W(x_k grown, x_k):
 \*                                ctor on slot 1, then 2 + nd times [slot 2 := copy of slot 1; grow slot 1; widen slot 1 with slot 2]
 RecipeLen == IF rk = "op" THEN 5 + nd ELSE IF rk = "chain" THEN 1 + 3 * (2 + nd) ELSE 6 + nd
-GrowOps == {"add_generator", "add_generator", "add_generators", "gen_affine_image", "affine_image", "add_constraint", "unconstrain"} \cap OpSet
+GrowOps == ({"add_generator", "add_generator", "add_generators", "gen_affine_image", "affine_image", "add_constraint", "unconstrain"}
+            \cup (IF Pset THEN {"add_disjunct", "add_disjunct_gs"} ELSE {})) \cap OpSet
 AfterCopy == Recipe /\ rk = "copy" /\ Len(prog) > 2 + nd
 RecipeTargets == (AllOps \cap OpSet) \ (CtorOps \cup {"destroy", "dumpload", "copy_from", "rebuild", "conv_topo", "swap", "assign"})
 RecipeOp == LET L == Len(prog) IN
@@ -140,7 +144,7 @@ Args ==
      \/ /\ cur \in CtorOps
         /\ \E s \in {IF Recipe \/ RE(1..2) = 1 THEN s0 ELSE RE(Slots)} :
            \E n \in {IF Recipe /\ Len(prog) = 1 THEN dim[1] ELSE IF Recipe THEN RE(1..MaxDim) ELSE RE(0..MaxDim)} :
-           \E t \in {IF Recipe /\ Len(prog) = 1 THEN topo[1] ELSE RE({"C", "NNC"})} : \E cnt \in {RE(1..4)} :
+           \E t \in {IF Shape = "psetC" THEN "C" ELSE IF Shape = "psetN" THEN "NNC" ELSE IF Recipe /\ Len(prog) = 1 THEN topo[1] ELSE RE({"C", "NNC"})} : \E cnt \in {RE(1..4)} :
              /\ \/ cur = "new" /\ Emit([D0 EXCEPT !.op = cur, !.dst = s, !.n = n, !.topo = t, !.k = RE({"universe", "universe", "empty"})])
                 \/ cur = "from_cs" /\ n > 0 /\ Emit([D0 EXCEPT !.op = cur, !.dst = s, !.n = n, !.topo = t, !.var = RE(0..6),
                         !.cs = RandSeq(cnt, LAMBDA i : ConOf(IF ill THEN {"ge", "eq", "gt"} ELSE ConKinds(t), anchor[s], n))])
